@@ -1153,7 +1153,7 @@ func (p *Prover) floorDefs(v ssa.Value, a string, in ILin, k int64) {
 	}
 	p.seenDef[v] = true
 	r := newILin().add(lin1(a), k) // K*a
-	p.addDef(v, in.add(r, -1))      // in - K*a >= 0
+	p.addDef(v, in.add(r, -1))     // in - K*a >= 0
 	up := r.add(in, -1)
 	up.C += k - 1
 	p.addDef(v, up) // K*a + K - 1 - in >= 0
